@@ -60,24 +60,28 @@ impl SigV4Authenticator {
     {}
 
 //@ fn auth.rs impl SigV4Authenticator :: builder
+//@ params
 //@ props C08 C17
 //@ ret r
 //@ spec
     ensures r.canonical_request_sha256 is None, r.credential is None, r.session_token is None, r.signature is None, r.request_timestamp is None
 //@ end
 //@ fn auth.rs impl SigV4Authenticator :: canonical_request_sha256
+//@ params
 //@ props C08 C01 C17
 //@ ret r
 //@ spec
     ensures r@ == self.creq_hash()
 //@ end
 //@ fn auth.rs impl SigV4Authenticator :: credential
+//@ params
 //@ props C08 C03 C17
 //@ ret r
 //@ spec
     ensures r.spec_bytes() == self.cred()
 //@ end
 //@ fn auth.rs impl SigV4Authenticator :: session_token
+//@ params
 //@ props C08 C03 C17
 //@ ret r
 //@ replace 1 `self.session_token.as_deref()` => `option_string_as_deref(&self.session_token)`
@@ -85,12 +89,14 @@ impl SigV4Authenticator {
     ensures self.token() is None ==> r is None, self.token() is Some ==> r is Some && r->Some_0@ == self.token()->Some_0@
 //@ end
 //@ fn auth.rs impl SigV4Authenticator :: signature
+//@ params
 //@ props C08 C01 C17
 //@ ret r
 //@ spec
     ensures r.spec_bytes() == self.sig()
 //@ end
 //@ fn auth.rs impl SigV4Authenticator :: request_timestamp
+//@ params
 //@ props C08 C04 C17
 //@ ret r
 //@ spec
@@ -98,6 +104,7 @@ impl SigV4Authenticator {
 //@ end
 
 //@ fn auth.rs impl SigV4Authenticator :: prevalidate
+//@ params region service server_timestamp allowed_mismatch
 //@ hideutf8
 //@ props C08 C03 C04 C13 C17
 //@ ret r
@@ -127,6 +134,7 @@ impl SigV4Authenticator {
 //@ end
 
 //@ fn auth.rs impl SigV4Authenticator :: get_string_to_sign
+//@ params
 //@ hideutf8
 //@ props C08 C01 C03 C16 C17
 //@ ret r
@@ -151,6 +159,7 @@ impl SigV4Authenticator {
     }
 
 //@ fn auth.rs impl SigV4Authenticator :: get_signing_key
+//@ params region service get_signing_key
 //@ hideutf8
 //@ props C08 C03 C14 C17
 //@ ret r
@@ -174,12 +183,21 @@ impl SigV4Authenticator {
     pub open spec fn pre_ok(&self, region: Seq<u8>, service: Seq<u8>, now: DateTime<Utc>, d: Duration) -> bool {
         window_lo(now, d) <= self.ts() <= window_hi(now, d) && scope_ok(self.cred(), region, service, self.ts())
     }
+    /// C13 (rules 10-13 in order): which kind a refusal by prevalidation has - expiry, then not-yet-valid, then credential arity, then scope
+    pub open spec fn pre_verdict(&self, region: Seq<u8>, service: Seq<u8>, now: DateTime<Utc>, d: Duration, e: SignatureError) -> bool {
+        let inside = window_lo(now, d) <= self.ts() <= window_hi(now, d);
+        &&& (self.ts() < window_lo(now, d) ==> e is SignatureDoesNotMatch)
+        &&& (self.ts() > window_hi(now, d) ==> e is SignatureDoesNotMatch)
+        &&& (inside && split(self.cred(), 0x2f).len() != 5 ==> e is IncompleteSignature)
+        &&& (inside && split(self.cred(), 0x2f).len() == 5 ==> e is SignatureDoesNotMatch)
+    }
     /// C01: the signature a holder of `key` computes over this request
     pub open spec fn expected_sig(&self, key: Seq<u8>) -> Seq<u8> {
         str_bytes(spec_hex(spec_hmac(key, sts_bytes(self.ts(), self.cred(), self.creq_hash()))))
     }
 
 //@ fn auth.rs impl SigV4Authenticator :: validate_signature
+//@ params region service server_timestamp allowed_mismatch get_signing_key
 //@ hideutf8
 //@ props C08 C01 C02 C14 C15 C17 C13
 //@ ret r
@@ -187,6 +205,8 @@ impl SigV4Authenticator {
     ensures
         !self.pre_ok(region.spec_bytes(), service.spec_bytes(), server_timestamp, allowed_mismatch) ==>
             r is Err && final(get_signing_key).calls() == old(get_signing_key).calls(), //# C14 C03 C04 C13 name=no_key_lookup_unless_prevalidated
+        !self.pre_ok(region.spec_bytes(), service.spec_bytes(), server_timestamp, allowed_mismatch) ==>
+            r is Err && self.pre_verdict(region.spec_bytes(), service.spec_bytes(), server_timestamp, allowed_mismatch, r->Err_0), //# C13 name=rules_10_to_13_win_over_key_lookup_and_signature
         self.pre_ok(region.spec_bytes(), service.spec_bytes(), server_timestamp, allowed_mismatch) ==>
             exists|req: GetSigningKeyRequest| {
                 &&& self.is_provider_request(region@, service@, req)
@@ -219,9 +239,24 @@ impl vstd::std_specs::convert::FromSpecImpl<GetSigningKeyResponse> for SigV4Auth
 impl SigV4AuthenticatorResponse {
     pub closed spec fn s_principal(&self) -> Principal { self.principal }
     pub closed spec fn s_session_data(&self) -> SessionData { self.session_data }
+//@ fn auth.rs impl SigV4AuthenticatorResponse :: principal
+//@ params
+//@ props C08 C15
+//@ ret r
+//@ spec
+        ensures *r == self.s_principal() //# C15 name=returned_principal_accessor
+//@ end
+//@ fn auth.rs impl SigV4AuthenticatorResponse :: session_data
+//@ params
+//@ props C08 C15
+//@ ret r
+//@ spec
+        ensures *r == self.s_session_data() //# C15 name=returned_session_data_accessor
+//@ end
 }
 impl From<GetSigningKeyResponse> for SigV4AuthenticatorResponse {
 //@ fn auth.rs impl From<GetSigningKeyResponse> for SigV4AuthenticatorResponse :: from
+//@ params request
 //@ props C08 C15 C17
 //@ ret r
 //@ spec
@@ -230,6 +265,7 @@ impl From<GetSigningKeyResponse> for SigV4AuthenticatorResponse {
 }
 /// helper of the two window error messages (the text is not verified; evaluating it must not panic)
 //@ fn auth.rs duration_to_string
+//@ params duration
 //@ props C08
 //@ end
 } // mod auth_m
